@@ -81,8 +81,10 @@ class Gen:
                     parts.append("send('%s')" % ev)
             elif r < 0.75:
                 parts.append(self.rng.choice(['x = x + 1', 'y = y + x', 'x = x - 1', 'y = x', 'x = 0', 'y = y + 1']))
-            else:
+            elif r < 0.9:
                 parts.append('z%d = time' % self.rng.randint(0, 1))
+            else:
+                parts.append('tick()')     # a callable of the initial context that moves the clock DURING the step
         return '\n'.join(parts)
 
     def cond(self, kind, with_old=True):
